@@ -3,7 +3,7 @@
    Prints only indices (see `disagreeing3`).  No proofs in this file. *)
 From Coq Require Import ZArith List Bool String QArith Qabs.
 Require Import OV.Torch.Onnx OV.Torch.Onnx2 OV.Torch.Onnx3 OV.Torch.Spec OV.Torch.Spec2 OV.Torch.Spec3
-               OV.Torch.Aten OV.Torch.Aten2 OV.Torch.Aten3 OV.Torch.Check.
+               OV.Torch.Aten OV.Torch.Aten2 OV.Torch.Aten3 OV.Torch.Check OV.Torch.Upsample.
 Import ListNotations.
 Local Open Scope Z_scope.
 
@@ -23,7 +23,8 @@ Inductive call3 :=
 | CScatterAdd (uf sf : bool) (s : list Z) (dim : Z) (idx src : list Z)
 | CScatterReduce (uf : bool) (s : list Z) (dim : Z) (idx src : list Z) (include_self : bool)
 | CConvolution (of : bool) (s w : list Z) (has_bias : bool) (stride padding dilation : list Z) (transposed : bool) (output_padding : list Z) (groups : Z)
-| CConvNd (lf bf : bool) (e : Z) (s w : list Z) (has_bias : bool) (stride padding dilation : list Z) (groups : Z).
+| CConvNd (lf bf : bool) (e : Z) (s w : list Z) (has_bias : bool) (stride padding dilation : list Z) (groups : Z)
+| CUpsample (k : up_kind) (s size : list Z) (scales : list (option Q)).          (* s = [N; C; spatial...] *)
 
 (* an observed float: exact value of the float32 / float64 number, or its class *)
 Inductive fobs := OFin (q : Q) | OInf (negative : bool) | ONaN.
@@ -75,6 +76,7 @@ Definition run_call3 (c : call3) : option pred3 :=
   | CScatterReduce uf s dim idx src inc => option_map P3Shape (aten_scatter_reduce_shape_v uf s dim idx src inc)
   | CConvolution of s w _ st pd dl tr op g =>
       obind (aten_convolution_attrs_v of (zlen w - 2) st pd dl tr op) (fun a => option_map P3Shape (conv_shape s w g tr a))
+  | CUpsample k s size scales => Some (P3Shape (take 2 s ++ aten_upsample_extents k (drop 2 s) size scales)%list)
   | CConvNd lf bf e s w hb st pd dl g =>
       obind (aten_convnd_attrs_v lf bf e st pd dl hb) (fun a => option_map P3Shape (conv_shape s w g false a))
   end.
@@ -100,6 +102,7 @@ Definition skel_call3 (c : call3) : skel :=
       | None => let e := zlen w - 2 in
                 skel_conv_core s w g tr (conv_expand1 e st, (conv_expand1 e pd ++ conv_expand1 e pd)%list, conv_expand1 e dl, op)
       end
+  | CUpsample k _ size scales => skel_upsample k size scales
   | CConvNd lf bf e s w hb st pd dl g =>
       let x := fun l => if lf then conv_expand1 e l else l in
       (skel_zero_bias_v bf e hb ++ skel_conv_core s w g false (x st, (x pd ++ x pd)%list, x dl, []))%list
